@@ -79,7 +79,7 @@ func (l *srvLab) dial() (*peer, error) {
 		return nil, err
 	}
 	p := &peer{v1: map[string][]ovsdb.TableUpdates{}, v2: map[string][]ovsdb.TableUpdates2{}}
-	p.c = rpc2.NewClientWithCodec(jsonrpc.NewJSONCodec(conn))
+	p.c = rpc2.NewClientWithCodec(&harnessCodec{Codec: jsonrpc.NewJSONCodec(conn)})
 	p.c.SetBlocking(true)
 	p.c.Handle("echo", func(_ *rpc2.Client, args []interface{}, reply *[]interface{}) error {
 		*reply = args
@@ -154,4 +154,22 @@ func (p *peer) take(cookie string) ([]ovsdb.TableUpdates, []ovsdb.TableUpdates2)
 	delete(p.v1, cookie)
 	delete(p.v2, cookie)
 	return a, b
+}
+
+// harnessCodec serialises the writes of the harness' own raw peers (the jsonrpc codec shares one encoder).
+type harnessCodec struct {
+	rpc2.Codec
+	mu sync.Mutex
+}
+
+func (c *harnessCodec) WriteRequest(r *rpc2.Request, v interface{}) error {
+	c.mu.Lock()
+	defer c.mu.Unlock()
+	return c.Codec.WriteRequest(r, v)
+}
+
+func (c *harnessCodec) WriteResponse(r *rpc2.Response, v interface{}) error {
+	c.mu.Lock()
+	defer c.mu.Unlock()
+	return c.Codec.WriteResponse(r, v)
 }
